@@ -94,7 +94,7 @@ func configsFor(r *rand.Rand, tier string, n int) []string {
 	var out []string
 	for i := 0; i < n; i++ {
 		c := Config{Cache: caches[r.Intn(len(caches))], Fast: r.Intn(2) == 0, Flush: flushes[r.Intn(len(flushes))],
-			Sync: r.Intn(4) == 0, Backend: backends[r.Intn(len(backends))]}
+			Sync: r.Intn(4) == 0, Backend: backends[r.Intn(len(backends))], IvLate: r.Intn(5) == 0}
 		out = append(out, c.String())
 	}
 	return out
